@@ -652,7 +652,7 @@ impl Scenario for SpendNet {
                     events.push(json!({"op": "finalise", "input": j, "order": "asc", "api": rng.chance(1, 2)}));
                 }
                 for _ in 0..rng.weighted(&[40, 45, 15]) {
-                    let what = *rng.pick(&["version", "locktime", "outpoint", "sequence", "output_value", "output_script", "add_output", "add_input", "declared_value", "key_byte", "key_byte", "sig_byte", "flag_byte", "sig_extra_byte", "outpoint", "sequence", "output_value", "insert_output", "insert_output", "prepend_output", "insert_input", "prepend_input"]);
+                    let what = *rng.pick(&["version", "locktime", "outpoint", "sequence", "output_value", "output_script", "add_output", "add_input", "declared_value", "key_byte", "key_byte", "sig_byte", "flag_byte", "sig_extra_byte", "sig_empty", "sig_drop", "outpoint", "sequence", "output_value", "insert_output", "insert_output", "prepend_output", "insert_input", "prepend_input"]);
                     // bias towards OTHER inputs/outputs than the signed one: that is where flags differ
                     let mi = if rng.chance(1, 2) { i } else { rng.below(n_in) };
                     events.push(json!({"op": "mutate", "what": what, "input": mi, "output": if n_out > 0 { rng.below(n_out) } else { 0 }, "r": rng.below(1 << 30), "utxo": rng.below(n_utxo)}));
@@ -705,7 +705,7 @@ impl Scenario for SpendNet {
                     }
                 }
                 4 => {
-                    let what = *rng.pick(&["version", "locktime", "outpoint", "sequence", "output_value", "output_script", "add_output", "add_input", "declared_value", "key_byte", "sig_byte", "flag_byte", "sig_extra_byte", "insert_output", "prepend_output", "insert_input", "prepend_input"]);
+                    let what = *rng.pick(&["version", "locktime", "outpoint", "sequence", "output_value", "output_script", "add_output", "add_input", "declared_value", "key_byte", "sig_byte", "flag_byte", "sig_extra_byte", "sig_empty", "sig_drop", "insert_output", "prepend_output", "insert_input", "prepend_input"]);
                     events.push(json!({"op": "mutate", "what": what, "input": if n_in > 0 { rng.below(n_in) } else { 0 }, "output": if n_out > 0 { rng.below(n_out) } else { 0 }, "r": rng.below(1 << 30), "utxo": rng.below(n_utxo)}));
                     if what == "add_output" || what == "insert_output" || what == "prepend_output" {
                         n_out += 1;
@@ -1094,17 +1094,22 @@ impl SpendNet {
                                 let sigobj = first.obj.as_ref().unwrap();
                                 match addr.and_then(|a| a.get_unlocking_script(&pk, sigobj)) {
                                     Ok(s) => s,
-                                    Err(_) => {
-                                        ctx.probe("get_unlocking_script_refused");
-                                        ctx.skip();
+                                    Err(e) => {
+                                        // "assembled ... through the library's own API": a refusal to assemble a standard spend from a
+                                        // valid key and the signature the library just made is a rejection of a valid spend
+                                        if ctx.violate("reject", "rejected-valid:api refused to assemble p2pkh unlocking script".into(), format!("P2PKHAddress::get_unlocking_script failed for a valid key and signature: {}", e)) {
+                                            return;
+                                        }
                                         continue;
                                     }
                                 }
                             } else {
                                 match lib!("from_asm_string", Script::from_asm_string(&format!("{} {}", hx(&first.bytes), hx(&pk_bytes)))) {
                                     Ok(s) => s,
-                                    Err(_) => {
-                                        ctx.skip();
+                                    Err(e) => {
+                                        if ctx.violate("reject", "rejected-valid:api refused to parse an unlocking script of plain pushes".into(), format!("Script::from_asm_string failed on hex pushes of signatures / keys: {}", e)) {
+                                            return;
+                                        }
                                         continue;
                                     }
                                 }
@@ -1116,16 +1121,20 @@ impl SpendNet {
                             let b = &ins[i].sigs[chosen[1]];
                             match lib!("from_asm_string", Script::from_asm_string(&format!("{} {}", hx(&b.bytes), hx(&a.bytes)))) {
                                 Ok(s) => s,
-                                Err(_) => {
-                                    ctx.skip();
+                                Err(e) => {
+                                    if ctx.violate("reject", "rejected-valid:api refused to parse an unlocking script of plain pushes".into(), format!("Script::from_asm_string failed on hex pushes of signatures / keys: {}", e)) {
+                                        return;
+                                    }
                                     continue;
                                 }
                             }
                         }
                         "p2pk" => match lib!("from_asm_string", Script::from_asm_string(&hx(&first.bytes))) {
                             Ok(s) => s,
-                            Err(_) => {
-                                ctx.skip();
+                            Err(e) => {
+                                if ctx.violate("reject", "rejected-valid:api refused to parse an unlocking script of plain pushes".into(), format!("Script::from_asm_string failed on hex pushes of signatures / keys: {}", e)) {
+                                    return;
+                                }
                                 continue;
                             }
                         },
@@ -1137,8 +1146,10 @@ impl SpendNet {
                             }
                             match lib!("from_asm_string", Script::from_asm_string(&asm)) {
                                 Ok(s) => s,
-                                Err(_) => {
-                                    ctx.skip();
+                                Err(e) => {
+                                    if ctx.violate("reject", "rejected-valid:api refused to parse an unlocking script of plain pushes".into(), format!("Script::from_asm_string failed on hex pushes of signatures / keys: {}", e)) {
+                                        return;
+                                    }
                                     continue;
                                 }
                             }
@@ -1199,7 +1210,7 @@ impl SpendNet {
                             m.locktime = v;
                             applied = true;
                         }
-                        "outpoint" | "sequence" | "declared_value" | "key_byte" | "sig_byte" | "flag_byte" | "sig_extra_byte" => {
+                        "outpoint" | "sequence" | "declared_value" | "key_byte" | "sig_byte" | "flag_byte" | "sig_extra_byte" | "sig_empty" | "sig_drop" => {
                             if i >= m.ins.len() {
                                 ctx.skip();
                                 continue;
@@ -1240,7 +1251,7 @@ impl SpendNet {
                                     txin.set_satoshis(m.ins[i].declared);
                                     applied = true;
                                 }
-                                "key_byte" | "sig_byte" | "flag_byte" | "sig_extra_byte" => {
+                                "key_byte" | "sig_byte" | "flag_byte" | "sig_extra_byte" | "sig_empty" | "sig_drop" => {
                                     let ins_sig_key = match ins[i].fin.as_ref() {
                                         Some(f) => ins[i].sigs[f.sigs[0]].key,
                                         None => {
@@ -1289,6 +1300,20 @@ impl SpendNet {
                                             let off = 4 + (r as usize / 7) % (l - 1 - 4 - 3);
                                             unl[s + off] ^= 1 << (r % 8);
                                             fin.tampered.push("sig_byte".into());
+                                        }
+                                        "sig_empty" | "sig_drop" => {
+                                            // a signature is replaced by the empty item (OP_0), or is simply not there: nobody signed
+                                            let (s0, l) = pushes[(r as usize) % n_sigs];
+                                            if l < 10 || l > 75 || s0 == 0 || unl[s0 - 1] as usize != l {
+                                                ctx.skip();
+                                                continue;
+                                            }
+                                            if what == "sig_empty" {
+                                                unl.splice(s0 - 1..s0 + l, [0x00u8]);
+                                            } else {
+                                                unl.splice(s0 - 1..s0 + l, []);
+                                            }
+                                            fin.tampered.push(what.clone());
                                         }
                                         "sig_extra_byte" => {
                                             // DER || <one extra byte that is itself a valid flag value> || flag: not a valid encoding
